@@ -7,6 +7,7 @@ verus! {
 //@include period.rs
 //@include std_specs.rs
 
+//@export-begin
 //@extract src/core/window.rs struct:Window
 //@end
 
@@ -278,6 +279,8 @@ impl<'a, T> ReversedWindowIterator<'a, T> {
 		self.remaining().len() > 0 ==> r == Some(&self.remaining().last()),
 //@end
 }
+
+//@export-end
 
 // round trip: a window rebuilt from its exported buffer and oldest-index represents the same sequence (C01, C13)
 pub fn rebuild_roundtrip<T>(w: Window<T>) -> (r: Window<T>)
